@@ -126,6 +126,10 @@ func parseContractFile(fset *token.FileSet, f *ast.File, pkg *packages.Package) 
 				out = append(out, cur)
 				continue
 			}
+			if word == "globalwrite" {
+				axioms = append(axioms, &Clause{Kind: "globalwrite", Text: rest, Ord: len(axioms) + 1, Line: where})
+				continue
+			}
 			if word == "typeinv" {
 				tn, r := splitWord(rest)
 				axioms = append(axioms, &Clause{Kind: "typeinv:" + tn, Text: r, Ord: len(axioms) + 1, Line: where})
